@@ -6,6 +6,7 @@ pub fn run(report: &Report) {
     report.require("tables_satisfying_preconditions");
     report.require("models_built");
     super::mfamily::run(report, "C03");
+    domain_part(report);
     super::pyfront::sweep(report, "views", 3,
         "Python Categorical(probabilities) in all three flavours, f32 and f64: the model is a value - overwriting the caller's array after the constructor returned must not change it (a model that tracks a mutable array is not one exactly invertible model)",
         &["Categorical(probabilities"], &[]);
@@ -16,4 +17,84 @@ pub fn run(report: &Report) {
 
 pub fn replay(case: &serde_json::Value) -> Result<String, String> {
     super::mfamily::replay(case)
+}
+
+
+/// A user-written distribution that is DEFINED ONLY where the documentation says it will be evaluated: at the mid-points
+/// `min + 0.5 ..= max - 0.5` between consecutive integers of the support (a cdf tabulated on those points). Evaluating
+/// it anywhere else is a fault of the library (the panic message starts with HARNESS-MODEL, which the harness counts as
+/// raised inside constriction).
+struct Tabulated { min: i32, cdf: Vec<f64>, hint: f64 }
+impl probability::distribution::Distribution for Tabulated {
+    type Value = f64;
+    fn distribution(&self, x: f64) -> f64 {
+        let k = x - (self.min as f64 + 0.5);
+        if k < 0.0 || k.fract() != 0.0 || k as usize >= self.cdf.len() {
+            panic!("HARNESS-MODEL: the cdf was evaluated at {x}, outside the mid-points {}..={} on which it is defined", self.min as f64 + 0.5, self.min as f64 + self.cdf.len() as f64 - 0.5);
+        }
+        self.cdf[k as usize]
+    }
+}
+impl probability::distribution::Inverse for Tabulated {
+    fn inverse(&self, _p: f64) -> f64 { self.hint }
+}
+
+fn domain_part(report: &Report) {
+    use crate::isolate::{guarded, Outcome};
+    use constriction::stream::model::{DecoderModel, EncoderModel, IterableEntropyModel, LeakyQuantizer};
+    let mut n = 0u64;
+    let mut bad: Vec<(String, String)> = vec![];
+    // every nondecreasing cdf table over {0, 0.25, 0.5, 1} on supports of 2..=5 symbols at every start, 4 hints
+    let vals = [0.0f64, 0.25, 0.5, 1.0];
+    for size in 2..=5usize {
+        let npts = size - 1;
+        for code in 0..4usize.pow(npts as u32) {
+            let cdf: Vec<f64> = (0..npts).map(|i| vals[code / 4usize.pow(i as u32) % 4]).collect();
+            if cdf.windows(2).any(|w| w[0] > w[1]) { continue; }
+            for min in [-3i32, 0, 100] {
+                for hint in [min as f64, min as f64 + size as f64, -1e9, 1e9] {
+                    let name = format!("cdf {:?} on the mid-points of {}..={}, inverse hint {hint}", cdf, min, min + size as i32 - 1);
+                    macro_rules! at { ($Pr:ty, $P:literal) => {{
+                        n += 1;
+                        let q = LeakyQuantizer::<f64, i32, $Pr, $P>::new(min..=min + size as i32 - 1);
+                        let m = q.quantize(Tabulated { min, cdf: cdf.clone(), hint });
+                        let res = guarded(|| {
+                            let mut rows = vec![];
+                            for s in min..min + size as i32 { let (c, p) = m.left_cumulative_and_probability(s).expect("symbol of the support refused"); rows.push((s, c as u64, p.get() as u64)); }
+                            let total = 1u64 << $P;
+                            let mut acc = 0u64;
+                            for r in &rows { assert!(r.1 == acc && r.2 > 0, "rows do not tile: {:?}", rows); acc += r.2; }
+                            assert!(acc == total, "rows do not add up: {:?}", rows);
+                            let qs: Vec<u64> = if $P <= 12 { (0..total).collect() } else { rows.iter().flat_map(|r| [r.1, r.1 + r.2 - 1, r.1 + r.2 / 2]).collect() };
+                            for x in qs {
+                                let (s, c, p) = m.quantile_function(x as $Pr);
+                                let e = rows.iter().find(|r| r.1 <= x && x < r.1 + r.2).unwrap();
+                                assert!((s, c as u64, p.get() as u64) == *e, "quantile {x}: {:?} vs {:?}", (s, c, p.get()), e);
+                            }
+                            let t: Vec<_> = m.symbol_table().map(|(s, c, p)| (s, c as u64, p.get() as u64)).collect();
+                            assert!(t == rows, "symbol_table {:?} vs {:?}", t, rows);
+                        });
+                        match res {
+                            Outcome::Value(()) => {}
+                            Outcome::CleanPanic { msg, .. } | Outcome::OverflowPanic { msg, .. } => {
+                                let what = if msg.starts_with("HARNESS-MODEL") { "the distribution is evaluated outside the points on which the documentation says it will be" } else { "model is not valid / not exactly invertible" };
+                                bad.push((format!("LeakyQuantizer::quantize | user-written distribution defined on the documented domain only | {what}"), format!("{name} at ({}, {}): {}", stringify!($Pr), $P, msg.chars().take(160).collect::<String>())));
+                            }
+                        }
+                    }}; }
+                    at!(u8, 4);
+                    at!(u16, 12);
+                    at!(u32, 24);
+                }
+            }
+        }
+    }
+    report.add_states(n);
+    report.count("tabulated_user_distributions", n);
+    let mut seen = std::collections::HashMap::<String, usize>::new();
+    for (i, d) in bad {
+        let k = seen.entry(i.clone()).or_insert(0); *k += 1;
+        if *k <= 3 { report.violation(crate::report::Violation { identity: i, detail: d, case: serde_json::json!({"kind": "none"}) }); }
+    }
+    report.section(serde_json::json!({"part": "user-written distributions defined only on the documented evaluation points", "what": "every nondecreasing cdf table over {0, 0.25, 0.5, 1} on supports of 2..=5 symbols x 3 positions x 4 inverse hints at (u8,4), (u16,12), (u32,24): all symbols, all quantiles (P <= 12), symbol_table", "models": n}));
 }
